@@ -9,6 +9,7 @@ import DateutilVerif.Proofs.RRuleGenDaysets
 import DateutilVerif.Proofs.RRuleGenCached
 import DateutilVerif.Proofs.RRuleGenUse
 import DateutilVerif.Proofs.RRuleGenInit
+import DateutilVerif.Proofs.RRuleGenInitAll
 import DateutilVerif.Properties.C01
 
 namespace C01
@@ -238,6 +239,27 @@ theorem gen_init_timeset_eq_model (a : Args) (bh bm bs : Option (List Int))
     (h : a.freq < 4 → bh.isSome = true ∧ bm.isSome = true ∧ bs.isSome = true) :
     Gen.init_timeset a.freq bh bm bs = timesetOf a bh bm bs :=
   RRuleGen.init_timeset_eq a bh bm bs h
+
+/-- the BYDAY block: plain members (ints, `MO`, every `MO(n)` above MONTHLY) and nth members as sorted sets, `None` for an
+    empty part, on the argument after the defaults block — the fields `byweekday` / `bynweekday` of `construct` -/
+theorem gen_init_byweekday_eq_model (a : Args) :
+    Gen.init_byweekday a.freq (weekdayArg a) = .ok (byweekdayOf a, bynweekdayOf a) :=
+  RRuleGen.init_byweekday_eq a
+
+/-- **the constructor, from its translated sections**: the sixteen blocks of `rrule.__init__` re-translated from source,
+    sequenced in source order (`RRuleGen.initSections`), are the model's `constructW fwd` — the same ValueError or the same
+    normalised rule, field for field, for every argument set and every ambient first weekday.
+    `_partial`: the sequencing (which variable feeds which block) and the plain attribute copies (`self._freq = freq`,
+    `self._count`, `self._until`, `dtstart.replace(microsecond=0)`, `self._tzinfo`) are written by hand in `initSections`, not
+    translated; the `_original_rule` bookkeeping (hand model `origArgs`), the `until` / `dtstart` conversions from `date`
+    and the UNTIL-vs-DTSTART awareness check are not covered (the `Args` type carries one zone tag and datetimes only).
+    Full statement wanted: `Gen.init fwd a = (constructW fwd a, origArgs a ·)` for a translation of the whole function. -/
+theorem gen_construct_eq_model_partial (fwd : Int) (a : Args) : RRuleGen.initSections fwd a = constructW fwd a :=
+  RRuleGen.initSections_eq fwd a
+
+example : (RRuleGen.initSections 0 { freq := 1, byweekday := some [(4, 1), (0, 0)], dtstart := { y := 1997, m := 9, d := 2, hh := 9, mm := 0, ss := 0, us := 5 } }).toOption.map (fun r => r.bynweekday) =
+    some (some [(4, 1)]) := by decide +kernel
+example : RRuleGen.initSections 0 { freq := 1, interval := 0, dtstart := default } = .error .ValueError := by decide +kernel
 
 example : Gen.init_bymonthday (some [3, -1, 3, 15, -2]) = .ok ([3, 15], [-2, -1]) := by decide
 example : Gen.init_bysetpos (some [1, 367]) = .error .ValueError := by decide
